@@ -166,10 +166,15 @@ def osmlem(op, x, data, niter, callback=None, **kwargs):
                          for opi in op]
     else:
         # Make sure the sensitivities is a list of the correct size.
-        try:
-            list(sensitivities)
-        except TypeError:
+        # A single domain element is iterable (over its entries), so it
+        # must be recognized before trying to interpret it as a sequence.
+        if sensitivities in op[0].domain:
             sensitivities = [sensitivities] * n_ops
+        else:
+            try:
+                list(sensitivities)
+            except TypeError:
+                sensitivities = [sensitivities] * n_ops
 
     tmp_dom = op[0].domain.element()
     tmp_ran = [opi.range.element() for opi in op]
